@@ -119,6 +119,7 @@ type Node struct {
 	Req      *TestSpec // Required(opts...) ; for pointers: NotNil(opts...)
 	Def      *Leaf     // primitives
 	DefSlice []Leaf    // slices: Default([]T{...}); nil = none
+	Exported  bool     // struct nodes: every key is an exported Go identifier (records that can be handed over as Go structs)
 	PtrCo     bool     // pointer nodes: the pointed-to primitive's coercer is installed through the pointer schema (WithCoercer(f)(Ptr(...)))
 	CoList    []Leaf   // slice nodes with Coercer "const": the elements the custom slice coercer returns
 	GlobalCo  bool     // Coercer/CoerceTo describe the global conf.Coercers override in effect, not a WithCoercer option
